@@ -1249,8 +1249,9 @@ func TestVerifC06Server(t *testing.T) {
 			ci = r.Intn(4)
 			cli = []int{0, 0, 0, 1, 2}[r.Intn(5)]
 			qid = uint16(r.Intn(65536))
-			if r.Intn(120) == 0 && len(gq.raw) > 12 {
-				gq.raw = gq.raw[:1+r.Intn(11)] // shorter than a header: wire.ParseHeader refuses it
+			if r.Intn(100) == 0 && len(gq.raw) > 12 {
+				// shorter than a header (wire.ParseHeader refuses it) or a header and nothing else
+				gq.raw = gq.raw[:[]int{1, 2, 5, 10, 11, 11, 12, 12, 12}[r.Intn(9)]]
 			}
 			if tr == vC06UDP && r.Intn(3) == 0 {
 				tune, tuneOff = true, r.Intn(3)-1
@@ -1423,11 +1424,11 @@ func TestVerifC06Server(t *testing.T) {
 			k = "corpus-" + k
 		}
 		if coq != "" {
-			pkt := []byte(nil)
+			pkt, plen := []byte(nil), 0
 			if tr == vC06UDP || tr == vC06TCP {
-				pkt = raw[:min(12, len(raw))]
+				pkt, plen = raw[:min(12, len(raw))], len(raw)
 			}
-			coq = fmt.Sprintf("CaseBytes %s %s (%s)", vC06Octets(pkt), vC06Octets(vC06OptTail(obs, reply)), coq)
+			coq = fmt.Sprintf("CaseBytes %s %d %s (%s)", vC06Octets(pkt), plen, vC06Octets(vC06OptTail(obs, reply)), coq)
 		}
 		fkey := ""
 		relax := 0
